@@ -236,7 +236,7 @@ def check_c05(ctx):
             if not v['aimok']:
                 raise Broken('generator and RefGraph!Designates disagree on %s (model error): %s' % (o['refs'], o['concrete'][:2]))
             rep.nontrivial.add(hashlib.sha1(json.dumps([o['abstract'], o['layout'], o['refs'], o['mode'], o['api']]).encode()).digest()[:8])
-            for pn in ('c05val', 'c05err', 'c05root', 'c05total'):
+            for pn in ('c05val', 'c05err', 'c05root', 'c05total', 'c05items'):
                 rep.count(pn + ':' + v[pn])
                 if v[pn] == 'fail':
                     rep.fail(pn, {'family': 'resolve', 'abstract': o['abstract'], 'layout': o['layout'], 'rot': o['rot'], 'names': o['names'],
